@@ -85,10 +85,12 @@ func (c *C04Write) Run() string {
 				return
 			}
 			if c.Write == "UnsafeAdd" {
+				// in-place arithmetic: the operation is picked by the case's code
+				op := []string{"Add", "Sub", "Mul"}[int(c.Code%3)]
 				for k := range want {
-					want[k], _ = binop("Add", A.arr.E[k], S.arr.E[k])
+					want[k], _ = binop(op, A.arr.E[k], S.arr.E[k])
 				}
-				_, lerr = tensor.Add(t, S.b.T, tensor.UseUnsafe())
+				_, lerr = pkgBinary[op](t, S.b.T, tensor.UseUnsafe())
 			} else {
 				copy(want, S.arr.E)
 				lerr = tensor.Copy(t, S.b.T)
